@@ -384,8 +384,8 @@ def offset_rule(F, rep):
 # ======================================================================================================
 # R15.5: the component accessors of a duration are cut from one and the same total
 COMPONENTS = {
-    "dmntk_feel::temporal::ym_duration::FeelYearsAndMonthsDuration": ["years", "months"],
-    "dmntk_feel::temporal::dt_duration::FeelDaysAndTimeDuration": ["get_days", "get_hours", "get_minutes", "get_seconds"],
+    "FeelYearsAndMonthsDuration": ["years", "months"],
+    "FeelDaysAndTimeDuration": ["get_days", "get_hours", "get_minutes", "get_seconds"],
 }
 
 
@@ -400,10 +400,13 @@ def components_rule(F, rep):
         return v
     for ty, names in sorted(COMPONENTS.items()):
         bases = {}
+        first = None
         for n in names:
-            full = "%s::%s" % (ty, n)
-            if full not in F.hir:
+            cands = [k for k in F.hir if k.startswith(T) and k.endswith("::%s::%s" % (ty, n))]
+            if len(cands) != 1:
                 continue
+            full = cands[0]
+            first = first or full
             outs, ev = fold(F, full, [("sym", "self")])
             v = single(outs)
             if v is None:
@@ -419,7 +422,7 @@ def components_rule(F, rep):
         if len(distinct) > 1:
             desc = "; ".join("%s from %s" % ("/".join(ns), short_val(eval(r) if False else r)) for r, ns in sorted(distinct.items()))
             rep.violation(rid, key, "the component accessors of %s are cut from different totals (%s): for negative durations the components no longer add up to the total" % (ty.split("::")[-1], desc[:300]),
-                          F.hir["%s::%s" % (ty, names[0])]["file"])
+                          F.hir[first]["file"])
         else:
             rep.ok(rid, key, "%d accessors share the base %s" % (len(bases), short_val(list(distinct)[0])))
 
@@ -435,15 +438,15 @@ def short_val(r):
 def instants_rule(F, rep):
     rid = rep.rule("R15.6", "compare() / subtract() / weekday() answer only from the instants produced by date_time_offset(date, time, resolved offset): first operand first, no answer from local calendar fields; "
                             "the weekday number is Monday-based (1..7)")
-    M = "dmntk_feel::temporal::"
-    need = [M + n for n in ("compare", "subtract", "weekday", "date_time_offset")]
-    if any(n not in F.hir for n in need):
-        rep.missing_anchor(rid, "temporal::compare / subtract / weekday / date_time_offset")
+    from props import c09
+    FN = {n: c09.temporal_fn(F, n) for n in ("compare", "subtract", "weekday", "date_time_offset")}
+    if any(v is None for v in FN.values()):
+        rep.missing_anchor(rid, "temporal functions compare / subtract / weekday / date_time_offset")
         return
 
     def hook(callee, args, st):
         n = (callee or "").split("::")[-1]
-        if callee == M + "date_time_offset":
+        if callee == FN["date_time_offset"]:
             return ("v", "Some", [("inst", args)])
         if n in ("get_local_offset", "get_zone_offset"):
             return ("v", "Some", [("call", callee, args)])
@@ -462,7 +465,7 @@ def instants_rule(F, rep):
         r = repr(inst)
         return {"me" if "('sym', 'me')" in r else None, "other" if "('sym', 'other')" in r else None} - {None}
     for fn, binary in (("compare", True), ("subtract", True), ("weekday", False)):
-        outs, ev = fold(F, M + fn, [("sym", "me"), ("sym", "other")][:2 if binary else 1], hook)
+        outs, ev = fold(F, FN[fn], [("sym", "me"), ("sym", "other")][:2 if binary else 1], hook)
         key = "instants:%s" % fn
         if outs is None:
             rep.undecided(rid, key, "%s has too many paths to fold" % fn)
@@ -491,7 +494,7 @@ def instants_rule(F, rep):
                     else:
                         rep.undecided(rid, key + ":numbering", "the weekday number is computed as %s" % ev.short(v)[:160])
         if probs:
-            rep.violation(rid, key, "temporal::%s: %s" % (fn, "; ".join(sorted(set(probs))[:3])), "%s:%s" % (F.hir[M + fn]["file"], F.hir[M + fn]["line"]))
+            rep.violation(rid, key, "temporal::%s: %s" % (fn, "; ".join(sorted(set(probs))[:3])), "%s:%s" % (F.hir[FN[fn]]["file"], F.hir[FN[fn]]["line"]))
         elif not n:
             rep.undecided(rid, key, "no answering path of %s was folded" % fn)
         else:
